@@ -100,7 +100,7 @@ func (ex *Exec) unop(fr *Frame, x *ssa.UnOp, st *State, reach Term) Val {
 		}
 		rv := ex.freshVal("recv", x.Type(), st)
 		if ci := ex.chanInvOf(x.X); ci != nil {
-			env := &SpecEnv{vars: map[string]Val{ci.Var: rv}, st: st, lst: st, pkg: fr.fn.Pkg.Pkg, topOld: fr.entry.top}
+			env := &SpecEnv{vars: map[string]Val{ci.Var: rv}, st: st, lst: st, pkg: fnPkg(fr.fn), topOld: fr.entry.top}
 			env.old = env
 			ex.vc.assume(Implies(reach, ex.evalBool(ci.E, env)))
 			ex.vc.Assumptions["channel invariant on "+ci.Field+" (checked at every send in the package): "+ci.Text] = true
@@ -650,6 +650,30 @@ func (ex *Exec) typeAssert(fr *Frame, x *ssa.TypeAssert, st *State, reach Term) 
 	v := ex.scalar(ex.get(fr, x.X, st))
 	var ok Term
 	var res Val
+	// dynamic type known on this path: decide the assertion statically
+	if h, a := splitApp(v.S); h == "mk-iface" && len(a) == 2 {
+		if id, isLit := litVal(a[0]); isLit && id >= 1 && int(id) <= len(ex.vc.typeByID) {
+			dt := ex.vc.typeByID[id-1]
+			var holds bool
+			if it, isIface := under(x.AssertedType).(*types.Interface); isIface {
+				holds = types.Implements(dt, it)
+				res = Scalar{v, x.AssertedType}
+			} else {
+				holds = types.Identical(dt, x.AssertedType)
+				if holds {
+					res = ex.unboxIface(v, x.AssertedType)
+				}
+			}
+			if !holds {
+				res = ex.zeroVal(x.AssertedType)
+			}
+			if x.CommaOk {
+				return TupleV{E: []Val{res, Scalar{BoolLit(holds), types.Typ[types.Bool]}}}
+			}
+			ex.boundsObl(fr, "typeassert", x.Pos(), reach, BoolLit(holds), isTypeAssertExpr, shortType(x.AssertedType))
+			return res
+		}
+	}
 	if isInterface(x.AssertedType) {
 		ex.noteIface(x.AssertedType)
 		ok = ex.implementsTerm(IfDyn(v), x.AssertedType)
